@@ -66,6 +66,38 @@ CHECKS.update({
                      "runtime contracts against the dense vector. Two recorded findings (RDMs of complex states are conjugated).",
                 technique="contracts decided exactly by symbolic execution of the real code (polynomial identities) + runtime contracts as bounded stand-in",
                 note=OTHER_NOTE + " Shims of the symbolic runs are listed in evidence."),
+    "C08": dict(cat="exploration", ref="DESIGN §8 C08",
+                text="Variational-theorem contracts against exact diagonalisation of the sector-projected dense Hamiltonian: every reported energy is an upper bound "
+                     "(k-th root vs k-th eigenvalue), exact at sufficient bond dimension, returned states normalised / in sector / QN-valid, omega targeting; bounded.",
+                technique="runtime contracts derived from the variational theorem on the real optimiser over bounded inputs (bounded stand-in of the contract family)",
+                note=OTHER_NOTE),
+    "C09": dict(cat="exploration", ref="DESIGN §8 C09",
+                text="Theorem-derived error bounds per scheme (Taylor / stage-polynomial remainder with the coefficients certified in C19, exactness of PS/PS2/VMF at "
+                     "full bond dimension, order of CMF) against scipy expm; solver-, split- and adaptivity-independence; norm/energy conservation of TDVP-PS at any "
+                     "bond dimension; bond limits; density-operator form; time-dependent H; histories of scheme switches. Bounded; nothing proved.",
+                technique="runtime contracts with theorem-derived bounds on the real evolution methods (bounded stand-in; convergence is outside the VC generator)",
+                note=OTHER_NOTE),
+    "C10": dict(cat="exploration", ref="DESIGN §8 C10",
+                text="Imaginary-time branch of every scheme vs normalised expm(-tau H)psi, exact local propagator incl. shift / phase / frame bookkeeping, purified "
+                     "identity states, thermal propagation vs dense Gibbs averages in the sector over two decades of beta. Bounded.",
+                technique="runtime contracts against dense matrix exponentials / Gibbs averages (bounded stand-in)",
+                note=OTHER_NOTE),
+    "C14": dict(cat="fault_enumeration", ref="DESIGN §8 C14, App. A.6",
+                text="Crash safety of TdMpsJob.dump_dict proved over a ghost file-system model from EVERY admissible directory state (pyvc: invariant obligation at each "
+                     "file-system call and inside np.savez; counter-models replayed by fault injection into the real function) and cross-validated by exhaustive fault "
+                     "enumeration on the real code incl. restarts and swallowed IOErrors; exact bitwise dump/load round trips for Mps, MpDm, Mpo, TTNS and the spill-to-disk path.",
+                technique="contract-based deductive verification of the crash protocol (pyvc ghost file system, z3) + exhaustive fault enumeration of the real function; runtime round-trip contracts",
+                note=OTHER_NOTE + " Trusted: POSIX atomicity of remove/rename/replace; np.savez leaves an unreadable file when interrupted."),
+    "C16": dict(cat="exploration", ref="DESIGN §8 C16",
+                text="Defining relations of every supported symbol of every basis class (symbol list extracted from the op_mat source with ast; uncovered symbols are a "
+                     "checker error) and independently assembled dense Hamiltonians for the model builders; bounded; several recorded findings.",
+                technique="runtime contracts (defining relations, independent closed forms, quadrature) on the real op_mat / builders over bounded parameter grids",
+                note=OTHER_NOTE),
+    "C17": dict(cat="exploration", ref="DESIGN §8 C17",
+                text="Jordan-Wigner models vs an independent Fock-space fermionic reference (1..3(4) spatial orbitals, exhaustive sparsity patterns for 1-2), site swaps with and "
+                     "without the JW remap vs P H P^T / F H F^T, OFS runs vs exact references; bounded; two recorded findings.",
+                technique="runtime contracts against an independent anticommuting-operator reference (bounded stand-in)",
+                note=OTHER_NOTE),
     "C13": dict(cat="exploration", ref="DESIGN §8 C13",
                 text="Frame contracts (represented vector, total charge and label validity of every live object unchanged; in-place mutation of a derived result "
                      "does not leak) evaluated after every step of random operation histories incl. every evolution scheme; bounded, nothing proved.",
@@ -103,10 +135,10 @@ def main():
                   "baseline_off_cmd": "cd /repo && /venv/bin/python -m pytest -ra -q -p no:cacheprovider --timeout=900 --continue-on-collection-errors",
                   "source_commits": [], "add_only": True},
         "engines": [
-            {"name": "pyvc", "path": "vk/pyvc", "serves_properties": ["C02", "C03", "C04", "C05", "C06", "C20"], "kind_free_text": "AST -> verification conditions (loop invariants, call by contract) -> z3/cvc5"},
+            {"name": "pyvc", "path": "vk/pyvc", "serves_properties": ["C02", "C03", "C04", "C05", "C06", "C14", "C20"], "kind_free_text": "AST -> verification conditions (loop invariants, call by contract) -> z3/cvc5"},
             {"name": "exact-exec", "path": "vk/symx/exactexec.py", "serves_properties": ["C19"], "kind_free_text": "real source executed on exact rationals / z3 reals"},
             {"name": "symx", "path": "vk/symx", "serves_properties": ["C03", "C07"], "kind_free_text": "real NumPy-level code executed on exact symbolic polynomial scalars; identities decided by normal form"},
-            {"name": "rtc", "path": "vk/rtc", "serves_properties": ["C01", "C02", "C03", "C04", "C05", "C06", "C07", "C13", "C20"], "kind_free_text": "runtime contracts on the real functions, bounded-exhaustive inputs (bounded stand-in, never counted as proved)"},
+            {"name": "rtc", "path": "vk/rtc", "serves_properties": ["C01", "C02", "C03", "C04", "C05", "C06", "C07", "C08", "C09", "C10", "C13", "C14", "C16", "C17", "C20"], "kind_free_text": "runtime contracts on the real functions, bounded-exhaustive inputs (bounded stand-in, never counted as proved)"},
         ],
         "checks": checks,
         "not_applicable": na,
